@@ -871,6 +871,223 @@ func (e *concExec) Check(r *vrt.Result) (string, string) {
 
 // ---------------------------------------------------------------------------
 
+// ---------------------------------------------------------------------------
+// consistent-hashing route: one destination is removed or added while lines are dispatched. A line is
+// routed by the ring that belongs to the destination list it is applied to: it reaches the owner under
+// the list before or after the change (only "after" when it began after the change, only "before" when
+// it returned before it), exactly once - never another destination, never nowhere.
+
+func chAddr(i int) string { return fmt.Sprintf("10.0.1.%d:2003", i) }
+func chKey(i int) string  { return util.Key("H", chAddr(i)) }
+func chNode(i int) ref.RingNode {
+	return ref.RingNode{Host: fmt.Sprintf("10.0.1.%d", i)}
+}
+
+// chNames[i] is a metric name owned by destination i of the three-destination ring.
+var chNames = func() (out [3]string) {
+	ring, err := ref.NewRing([]ref.RingNode{chNode(0), chNode(1), chNode(2)})
+	if err != nil {
+		panic(err)
+	}
+	found := 0
+	for k := 0; found < 3 && k < 10000; k++ {
+		n := fmt.Sprintf("h%d", k)
+		if o := ring.Owner(n); out[o] == "" {
+			out[o] = n
+			found++
+		}
+	}
+	return
+}()
+
+type chExec struct {
+	op    int   // 0..2: DelDestination(op); 3: Add(destination 9)
+	names []int // one per dispatcher: index into chNames
+	viol  string
+	out   string
+}
+
+func (e *chExec) opName() string {
+	if e.op == 3 {
+		return "addDest(H,9)"
+	}
+	return fmt.Sprintf("delDest(H,%d)", e.op)
+}
+
+func (e *chExec) Body() {
+	vrt.SetEnv("net", refuse{})
+	aggregator.VerifInit()
+	cfg, err := table.NewTableConfig("/nospool", "1h", validate.LevelLegacy{Level: m20.MediumLegacy}, validate.LevelM20{Level: m20.MediumM20}, false)
+	if err != nil {
+		panic(err)
+	}
+	t := table.New(cfg)
+	mkDest := func(i int) *destination.Destination {
+		d, err := destination.New("H", matcher.Matcher{}, chAddr(i), "/nospool", false, false, time.Second, time.Hour, 10, 1000, 10, 1000, 1000, time.Second, 0, 0)
+		if err != nil {
+			panic(err)
+		}
+		return d
+	}
+	r, err := route.NewConsistentHashing("H", matcher.Matcher{}, []*destination.Destination{mkDest(0), mkDest(1), mkDest(2)})
+	if err != nil {
+		panic(err)
+	}
+	t.AddRoute(r)
+	vrt.Quiesce()
+	members := []int{0, 1, 2, 9}
+	count := func() map[int]int64 {
+		c := map[int]int64{}
+		for _, i := range members {
+			c[i] = harn.Count("dest=" + chKey(i) + ".unit=Metric.action=drop.reason=conn_down_no_spool")
+		}
+		return c
+	}
+	base := count()
+	unr0 := harn.Count("unit=Metric.direction=unroutable")
+	before := []int{0, 1, 2}
+	var after []int
+	if e.op == 3 {
+		after = []int{0, 1, 2, 9}
+	} else {
+		for _, i := range before {
+			if i != e.op {
+				after = append(after, i)
+			}
+		}
+	}
+	var clock, opCall, opRet int64
+	n := len(e.names)
+	dCall, dRet := make([]int64, n), make([]int64, n)
+	finished := 0
+	vrt.GoNamed("admin", func() {
+		clock++
+		opCall = clock
+		var err error
+		if e.op == 3 {
+			r.(*route.ConsistentHashing).Add(mkDest(9))
+		} else {
+			err = t.DelDestination("H", e.op)
+		}
+		clock++
+		opRet = clock
+		if err != nil && e.viol == "" {
+			e.viol = fmt.Sprintf("%s returned %v", e.opName(), err)
+		}
+		finished++
+	})
+	for d := 0; d < n; d++ {
+		d := d
+		vrt.GoNamed(fmt.Sprintf("disp%d", d), func() {
+			clock++
+			dCall[d] = clock
+			t.Dispatch([]byte(fmt.Sprintf("%s %d 1", chNames[e.names[d]], d)))
+			clock++
+			dRet[d] = clock
+			finished++
+		})
+	}
+	vrt.WaitUntil("join", func() bool { return finished == n+1 })
+	vrt.Quiesce()
+	got := count()
+	var delta []string
+	total := int64(0)
+	for _, i := range members {
+		if v := got[i] - base[i]; v != 0 {
+			delta = append(delta, fmt.Sprintf("D%d+%d", i, v))
+			total += v
+		}
+	}
+	e.out = strings.Join(delta, " ")
+	if e.viol != "" {
+		return
+	}
+	if u := harn.Count("unit=Metric.direction=unroutable") - unr0; u != 0 {
+		e.viol = fmt.Sprintf("%d line(s) counted unroutable although route H accepts everything", u)
+		return
+	}
+	owner := func(list []int, name string) int {
+		var nodes []ref.RingNode
+		for _, i := range list {
+			nodes = append(nodes, chNode(i))
+		}
+		ring, err := ref.NewRing(nodes)
+		if err != nil {
+			panic(err)
+		}
+		return list[ring.Owner(name)]
+	}
+	// allowed owners per dispatcher; the destination being removed may swallow a line it was handed
+	// while it shuts down (that line was routed by the "before" table), so it may or may not count it
+	type choice struct {
+		dest     int
+		optional bool
+	}
+	allowed := make([][]choice, n)
+	for d := 0; d < n; d++ {
+		name := chNames[e.names[d]]
+		if !(dCall[d] > opRet) { // did not begin after the change
+			o := owner(before, name)
+			allowed[d] = append(allowed[d], choice{o, e.op == o})
+		}
+		if !(dRet[d] < opCall) { // did not return before the change
+			allowed[d] = append(allowed[d], choice{owner(after, name), false})
+		}
+	}
+	// does some combination of allowed owners explain the counters?
+	var rec func(d int, want map[int]int64) bool
+	rec = func(d int, want map[int]int64) bool {
+		if d == n {
+			for _, i := range members {
+				if want[i] != got[i]-base[i] {
+					return false
+				}
+			}
+			return true
+		}
+		for _, c := range allowed[d] {
+			want[c.dest]++
+			ok := rec(d+1, want)
+			want[c.dest]--
+			if ok {
+				return true
+			}
+			if c.optional && rec(d+1, want) {
+				return true
+			}
+		}
+		return false
+	}
+	if !rec(0, map[int]int64{}) {
+		var desc []string
+		for d := 0; d < n; d++ {
+			var a []string
+			for _, c := range allowed[d] {
+				a = append(a, fmt.Sprintf("D%d", c.dest))
+			}
+			desc = append(desc, fmt.Sprintf("%q -> %s", chNames[e.names[d]], strings.Join(a, " or ")))
+		}
+		e.viol = fmt.Sprintf("consistent-hashing route [D0 D1 D2] during %s: deliveries {%s} are not what the ring before or after the change yields (%s): a line was routed with the ring of one destination list and delivered by index into another", e.opName(), e.out, strings.Join(desc, "; "))
+	}
+}
+
+func (e *chExec) Check(r *vrt.Result) (string, string) {
+	h := fmt.Sprintf("%s, dispatchers %v", e.opName(), e.names)
+	if len(r.Panics) > 0 {
+		return "panic", "panic: " + r.Panics[0].Value + "\n" + h + "\n" + r.Panics[0].Stack
+	}
+	if r.StepLimit {
+		return "steplimit", "livelock: step limit\n" + h
+	}
+	if !r.DriverDone {
+		return "blocked", fmt.Sprintf("a dispatch or the admin operation never returned\n%s\nblocked: %v", h, r.Blocked)
+	}
+	if e.viol != "" {
+		return e.out, e.viol + "\n" + h
+	}
+	return e.out, ""
+}
+
 func main() {
 	rep := kit.New("C18", "model_checking")
 	rep.Quiet()
@@ -928,6 +1145,30 @@ func main() {
 					New: func() vrt.Exec { return &concExec{shape: s, script: sc, names: names} },
 				})
 			}
+		}
+	}
+	// consistent hashing: each change against one dispatcher per owner, and against two dispatchers
+	for op := 0; op <= 3; op++ {
+		var sets [][]int
+		for a := 0; a < 3; a++ {
+			sets = append(sets, []int{a})
+		}
+		sets = append(sets, []int{1, 2}, []int{0, 2}, []int{0, 1})
+		for _, ns := range sets {
+			op, ns := op, ns
+			b := bound
+			if len(ns) == 2 {
+				b = bound - 1
+				if !rep.Thorough() {
+					b = bound // the two-dispatcher runs are short
+				}
+			}
+			e0 := &chExec{op: op, names: ns}
+			scns = append(scns, &vrt.Scenario{
+				Name: fmt.Sprintf("conc consistentHashing [%s] names %v", e0.opName(), ns),
+				Cfg:  vrt.Config{Groups: groups, MaxSteps: 50000}, Model: vrt.CostDelay, Bound: b,
+				New: func() vrt.Exec { return &chExec{op: op, names: ns} },
+			})
 		}
 	}
 	rep.Assume = []string{
